@@ -25,9 +25,9 @@ PROFILES = {
     "C05": dict(world={"p_seg": 0.3}, w={"add_edge": 5, "delete_edge": 4, "delete_node": 4, "enable": 0.05, "disable": 0.02, "restart": 0.2}, steps=(10, 60), division_bias=True),
     "C06": dict(world={"p_seg": 0.3}, w={"issue_ids": 1, "delete_node": 3, "enable": 0.05, "disable": 0.02, "restart": 0.2}, steps=(10, 60), explicit_tracks=True),
     "C07": dict(world={"seg": True, "feats": "any"}, w={"paint": 8, "enable": 0.1, "disable": 0.05}, steps=(10, 50), nopix=True),
-    "C08": dict(world={"seg": True, "feats": "any"}, w={"paint": 8, "enable": 0.6, "disable": 0.3}, steps=(8, 40)),
-    "C09": dict(world={"seg": True, "feats": "iou"}, w={"paint": 7, "add_edge": 5, "enable": 0.6, "disable": 0.4}, steps=(8, 40), iou_toggle=True),
-    "C10": dict(world={}, w={"enable": 4, "disable": 3, "update_attrs": 3, "query": 0.3}, steps=(10, 50), toggle_ids=True),
+    "C08": dict(world={"seg": True, "feats": "any"}, w={"paint": 8, "enable": 0.6, "disable": 0.3}, steps=(8, 40), motif=0.4, motifs=["toggle", "toggle", "fold"]),
+    "C09": dict(world={"seg": True, "feats": "iou"}, w={"paint": 7, "add_edge": 5, "enable": 0.6, "disable": 0.4}, steps=(8, 40), iou_toggle=True, motif=0.4, motifs=["toggle", "toggle", "fold"]),
+    "C10": dict(world={}, w={"enable": 4, "disable": 3, "update_attrs": 3, "query": 0.3}, steps=(10, 50), toggle_ids=True, motif=0.4, motifs=["toggle", "toggle", "fold"]),
     "C11": dict(world={}, w={"add_edge": 6, "add_node": 5, "paint": 5, "swap": 2, "update_attrs": 2, "enable": 0.05, "disable": 0.02}, steps=(10, 60), f1=(0.4,), trap=True),
     "C14": dict(world={"p_big": 0.03}, w={"reimport": 2.5, "restart": 0.8, "save": 0.8, "enable": 0.15, "disable": 0.15}, steps=(4, 25), io=True, explicit_tracks=True),
     "C15": dict(world={"p_big": 0.08}, w={"export": 3, "enable": 0.1, "disable": 0.0}, steps=(4, 25), io=True, subset=1.0, explicit_tracks=True),
@@ -67,6 +67,10 @@ def swarm(rng: random.Random, prop: str, tier: str) -> dict:
         "sweep": 0.15 if (prop in ("C14", "C16") and tier == "thorough") else 0.0,
         # share of node/edge selectors redirected to what the last effective operation touched
         "locality": rng.choice([0.0, 0.0, 0.3, 0.6]),
+        # probability that one scripted motif is spliced into the schedule (not in the
+        # I/O profiles, whose sessions are short and dominated by exports)
+        "motif": 0.0 if p.get("io") else p.get("motif", 0.25),
+        "motifs": p.get("motifs"),
     }
     return cfg
 
@@ -239,6 +243,38 @@ def gen_op(rng: random.Random, cfg: dict, kind: str | None = None) -> dict:
     return op
 
 
+EDITS = ["add_node", "delete_node", "add_edge", "delete_edge", "swap", "update_attrs", "paint"]
+
+
+def _motif(rng: random.Random, cfg: dict) -> list:
+    """A short scripted pattern of dependent operations (selectors still state-relative).
+    Uniform schedules almost never line these up, and they are where stale values and
+    order-sensitive history code show: a feature switched off while its inputs change and
+    the element is deleted, then switched on again before the deletion is undone; two
+    dependent edits folded into the history by a third one; a node deleted, restored and
+    its track neighbour deleted."""
+    loc = dict(cfg, locality=0.8)
+    kind = rng.choice(cfg.get("motifs") or ["toggle", "fold", "redelete"])
+    if kind == "toggle":
+        keys = ["@iou"] if rng.random() < 0.5 else [rng.randrange(16)]
+        tog = {"keys": keys, "unknown": False, "allow_ids": False}
+        paint = gen_op(rng, loc, "paint")
+        paint.update(target=rng.randrange(64), noop=None, invalid=None, value=[rng.choice(["bg", "existing", "new"]), rng.randrange(16)], whole=False, frames=1)
+        if rng.random() < 0.5:
+            dele = {"op": "delete_edge", "e": ["recent", rng.randrange(64)], "reinvert": False}
+        else:
+            dele = {"op": "delete_node", "n": ["recent", rng.randrange(64)], "reinvert": False}
+        return [dict(tog, op="enable"), dict(tog, op="disable"), paint, dele, dict(tog, op="enable"), {"op": "undo"}, {"op": "redo"}, {"op": "undo"}]
+    if kind == "fold":
+        e = [gen_op(rng, loc, rng.choice(EDITS)) for _ in range(3)]
+        for o in e:
+            o.pop("invalid", None)
+        return [e[0], e[1], {"op": "undo"}, {"op": "undo"}, e[2]] + [{"op": "undo"}] * 3 + [{"op": "redo"}] * 2
+    # redelete
+    return [{"op": "delete_node", "n": ["one_child", rng.randrange(64)], "reinvert": False}, {"op": "undo"},
+            {"op": "delete_node", "n": ["recent", rng.randrange(64)], "reinvert": False}, {"op": "undo"}, {"op": "redo"}]
+
+
 def gen_schedule(rng: random.Random, cfg: dict) -> list:
     ops = []
     n = cfg["steps"]
@@ -249,4 +285,10 @@ def gen_schedule(rng: random.Random, cfg: dict) -> list:
         if bursty and op["op"] in ("undo", "redo") and rng.random() < 0.6:
             for _ in range(rng.randint(1, 5)):
                 ops.append({"op": op["op"]})
-    return ops[: n + 6]
+    ops = ops[: n + 6]
+    if cfg.get("motif") and rng.random() < cfg["motif"]:
+        at = rng.randrange(len(ops) + 1)
+        m = _motif(rng, cfg)
+        m[0] = dict(m[0], motif=True)
+        ops[at:at] = m
+    return ops
